@@ -162,6 +162,21 @@ func c06Run(e *core.Env) {
 			}
 		}
 	}
+	// byte-slice inputs of the text entry points are inputs too: UnmarshalText, Scan([]byte), NullDecimal.Scan([]byte),
+	// BigInt.UnmarshalText/UnmarshalJSON/SetBytes and Compose must leave the caller's slice as it was
+	for ti, txt := range c06ByteTexts {
+		if !e.Mine(int64(ti)) {
+			continue
+		}
+		e.State()
+		e.TransOnly(int64(len(c06ByteEntries)))
+		e.Outcome("byte-slice-argument-unchanged", false)
+		for _, en := range c06ByteEntries {
+			if msg := c06ByteArg(en.name, txt); msg != "" {
+				e.Fail(en.name, "bytes", purityCase{Op: en.name, Hist: txt}, fmt.Sprintf("%s(%q): %s", en.name, txt, msg))
+			}
+		}
+	}
 	// no shared storage between a BigInt and the math/big values it is set from or converted to: after
 	// SetMathBigInt(arg) in-place arithmetic on the receiver must not reach arg, changing arg must not reach the
 	// receiver, and the value returned by MathBigInt must be independent of the receiver
@@ -388,6 +403,53 @@ func firstDiffStr(a, b string) string {
 	return fmt.Sprintf("at offset %d: ...%s... became ...%s...", i, ca[lo:], cb[lo:])
 }
 
+var c06ByteTexts = []string{"1.5E+7", "-12E-3", "NaN", "sNaN123", "-Infinity", "INF", "Inf", "1E5", "+0.0E+0", "123", "0x1F", "-0B101", "1_000", "\"42\"", "null", "\x00\xffAZ", "Not a Number", "1E", ""}
+
+var c06ByteEntries = []struct {
+	name string
+	f    func(b []byte)
+}{
+	{"Decimal.UnmarshalText", func(b []byte) { new(apd.Decimal).UnmarshalText(b) }},
+	{"Decimal.Scan([]byte)", func(b []byte) { new(apd.Decimal).Scan(b) }},
+	{"NullDecimal.Scan([]byte)", func(b []byte) { new(apd.NullDecimal).Scan(b) }},
+	{"BigInt.UnmarshalText", func(b []byte) { new(apd.BigInt).UnmarshalText(b) }},
+	{"BigInt.UnmarshalJSON", func(b []byte) { new(apd.BigInt).UnmarshalJSON(b) }},
+	{"BigInt.SetBytes", func(b []byte) { new(apd.BigInt).SetBytes(b) }},
+	{"Decimal.Compose", func(b []byte) { new(apd.Decimal).Compose(0, false, b, -2) }},
+}
+
+// c06ByteArg calls one entry point with a private copy of txt (with spare capacity behind it) and reports a change
+// of the slice's bytes, of the spare capacity or a panic.
+func c06ByteArg(name, txt string) (msg string) {
+	defer func() {
+		if r := recover(); r != nil {
+			msg = fmt.Sprintf("panic: %v", r)
+		}
+	}()
+	for _, en := range c06ByteEntries {
+		if en.name != name {
+			continue
+		}
+		buf := make([]byte, len(txt), len(txt)+8)
+		copy(buf, txt)
+		spare := buf[len(txt):cap(buf)]
+		for i := range spare {
+			spare[i] = 0xA5
+		}
+		en.f(buf)
+		if string(buf) != txt {
+			return fmt.Sprintf("the caller's slice now reads %q", string(buf))
+		}
+		for _, c := range buf[len(txt):cap(buf)] {
+			if c != 0xA5 {
+				return "the spare capacity behind the caller's slice was written"
+			}
+		}
+		return ""
+	}
+	return "unknown entry point"
+}
+
 // c06Storage checks that SetMathBigInt / MathBigInt / NewWithBigInt / Set copy instead of sharing words.
 func c06Storage(v *big.Int) (msg string) {
 	defer func() {
@@ -473,6 +535,9 @@ func c06Replay(kind string, raw json.RawMessage) string {
 	var p purityCase
 	if err := json.Unmarshal(raw, &p); err != nil {
 		return "bad replay file"
+	}
+	if kind == "bytes" {
+		return c06ByteArg(p.Op, p.Hist)
 	}
 	if kind == "ctor" {
 		b, ok := new(big.Int).SetString(p.Hist, 10)
